@@ -12,6 +12,11 @@
 //!   total   : property C09 (pipeline never panics), macro side; every stage under catch_unwind:
 //!       P <ok | err <Variant> <Display text> | PANIC <msg>>      parse_locales(false, dir)   (parser with the `quote` feature)
 //!       G <ok <token stream length> | err <Variant> <Display> | PANIC <msg> | skip>   load_locales() (only after P ok)
+//!       D <ok <values> <locales defaulted> | PANIC <msg>>   DefaultedLocales::compute() and default_of(locale) on every value of
+//!                                                           BuildersKeys, exactly what the code generator calls per key (after P ok)
+//!       every line is flushed as soon as it is known: a stage that never returns is seen by the caller's watchdog
+//!   defaults: `DefaultedLocales` driven directly, one mapping per line `<default>|<k>v,k>v,...>|<query,query,...>`:
+//!       `R <query=default_of(query),...>|C <default_to:[locales...];...>`  (compute()), in a child process with a watchdog
 //!   depth   : the same two calls WITHOUT catch_unwind, for child processes (a stack overflow aborts, it does not unwind)
 //!   codegen : the macro crate's code generator, compiled from its source files, run in-process with
 //!       CARGO_MANIFEST_DIR pointing at the project: `C ok <token stream text>` | `C err <Variant>` | `C PANIC`
@@ -146,9 +151,55 @@ fn panic_msg(p: Box<dyn std::any::Any + Send>) -> String {
     p.downcast_ref::<String>().cloned().or_else(|| p.downcast_ref::<&str>().map(|s| s.to_string())).unwrap_or_default()
 }
 
+fn defaults_of_keys(keys: &BuildersKeysInner, locales: &[String], acc: &mut (usize, usize)) {
+    for v in keys.0.values() {
+        match v {
+            LocaleValue::Value { defaults, .. } => {
+                let c = defaults.compute();
+                acc.0 += 1;
+                acc.1 += c.values().map(|s| s.len()).sum::<usize>();
+                for l in locales {
+                    if let Some(k) = leptos_i18n_parser::utils::Key::new(l) {
+                        let _ = defaults.default_of(&k);
+                    }
+                }
+            }
+            LocaleValue::Subkeys { keys, .. } => defaults_of_keys(keys, locales, acc),
+        }
+    }
+}
+
+fn run_defaults_line(line: &str) -> String {
+    use leptos_i18n_parser::parse_locales::locale::DefaultedLocales;
+    use leptos_i18n_parser::utils::Key;
+    let f: Vec<&str> = line.split('|').collect();
+    let k = |s: &str| Key::new(s).unwrap();
+    let mut d = DefaultedLocales::new(k(f[0]));
+    for pair in f[1].split(',').filter(|x| !x.is_empty()) {
+        let (a, b) = pair.split_once('>').unwrap();
+        d.push(k(a), k(b));
+    }
+    let r: Vec<String> = f[2].split(',').filter(|x| !x.is_empty()).map(|q| format!("{}={}", q, d.default_of(&k(q)).name)).collect();
+    let c: Vec<String> = d
+        .compute()
+        .iter()
+        .map(|(to, set)| format!("{}:[{}]", to.name, set.iter().map(|x| x.name.to_string()).collect::<Vec<_>>().join(" ")))
+        .collect();
+    format!("R {}|C {}", r.join(","), c.join(";"))
+}
+
 fn run_total(dir: &str, o: &mut dyn Write) {
     let d = dir.to_string();
-    let p = std::panic::catch_unwind(move || parse_locales(false, Some(std::path::PathBuf::from(&d))).map(|_| ()));
+    let p = std::panic::catch_unwind(move || parse_locales(false, Some(std::path::PathBuf::from(&d))).map(|(k, _, _)| k));
+    let mut parsed = None;
+    let p = match p {
+        Err(e) => Err(e),
+        Ok(Err(e)) => Ok(Err(e)),
+        Ok(Ok(k)) => {
+            parsed = Some(k);
+            Ok(Ok(()))
+        }
+    };
     let ok = match p {
         Err(e) => {
             writeln!(o, "P\tPANIC\t{}", one_line(&panic_msg(e))).unwrap();
@@ -163,9 +214,35 @@ fn run_total(dir: &str, o: &mut dyn Write) {
             true
         }
     };
+    o.flush().unwrap();
     if !ok {
         writeln!(o, "G\tskip").unwrap();
         return;
+    }
+    if let Some(keys) = parsed {
+        let r = std::panic::catch_unwind(std::panic::AssertUnwindSafe(|| {
+            let mut acc = (0usize, 0usize);
+            match &keys {
+                BuildersKeys::Locales { locales, keys } => {
+                    let names: Vec<String> = locales.iter().map(|l| l.name.name.to_string()).collect();
+                    defaults_of_keys(keys, &names, &mut acc)
+                }
+                BuildersKeys::NameSpaces { namespaces, keys } => {
+                    for ns in namespaces {
+                        let names: Vec<String> = ns.locales.iter().map(|l| l.name.name.to_string()).collect();
+                        if let Some(k) = keys.get(&ns.key) {
+                            defaults_of_keys(k, &names, &mut acc)
+                        }
+                    }
+                }
+            }
+            acc
+        }));
+        match r {
+            Ok((n, m)) => writeln!(o, "D\tok\t{}\t{}", n, m).unwrap(),
+            Err(e) => writeln!(o, "D\tPANIC\t{}", one_line(&panic_msg(e))).unwrap(),
+        }
+        o.flush().unwrap();
     }
     std::env::set_var("CARGO_MANIFEST_DIR", dir);
     match std::panic::catch_unwind(|| load_locales::load_locales().map(|ts| ts.to_string().len())) {
@@ -177,6 +254,17 @@ fn run_total(dir: &str, o: &mut dyn Write) {
 
 fn main() {
     let mode = std::env::args().nth(1).unwrap_or_default();
+    if mode == "defaults" {
+        let stdin = std::io::stdin();
+        let mut o = std::io::BufWriter::new(std::io::stdout().lock());
+        for line in stdin.lock().lines() {
+            let line = line.unwrap();
+            writeln!(o, "{}", run_defaults_line(&line)).unwrap();
+            writeln!(o, "END\t{}", line).unwrap();
+            o.flush().unwrap();
+        }
+        return;
+    }
     if mode == "depth" || mode == "total" {
         if mode == "total" {
             std::panic::set_hook(Box::new(|_| {}));
